@@ -252,6 +252,35 @@ def run_fp(cfg):
                 sha256=dict(tw.sha256), wall=sum(r["wall"] for r in results))
 
 
+FAMILY = ["euclidean", "squared_euclidean", "average_euclidean", "log_euclidean", "log_squared_euclidean"]
+
+
+def run_family(cfg):
+    """C11(c): each of the five Euclidean-family identifiers is a strictly increasing function of
+    S = sum (x_i - y_i)^2, hence induces the same order type on every data set"""
+    common.bootstrap()
+    tw = common.get_twin()
+    name, n = cfg["metric"], cfg["n"]
+    dist = tw.mod("opfython.math.distance")
+
+    def harness():
+        eng = core.engine()
+        symmath.LEVEL = "full"
+        x, y = sym_vec(eng, n, "x", "R"), sym_vec(eng, n, "y", "R")
+        u, v = sym_vec(eng, n, "u", "R"), sym_vec(eng, n, "v", "R")
+        return dict(x=x, y=y, u=u, v=v, a=call(dist, name, x, y), b=call(dist, name, u, v))
+
+    def on_leaf(eng, out):
+        S1 = z3.Sum([(to_real(p) - to_real(q)) * (to_real(p) - to_real(q)) for p, q in zip(out["x"], out["y"])])
+        S2 = z3.Sum([(to_real(p) - to_real(q)) * (to_real(p) - to_real(q)) for p, q in zip(out["u"], out["v"])])
+        a, b = to_real(out["a"]), to_real(out["b"])
+        info = lambda m: dict(kind="metric_family", cfg=cfg, **{k: [common.fraction_to_float(eng.eval_model(m, t)) for t in out[k]]
+                                                                   for k in ("x", "y", "u", "v")})
+        eng.check("strictly-increasing-in-the-squared-euclidean-distance", z3.And((S1 < S2) == (a < b), (S1 == S2) == (a == b)), info)
+    return common.explore(cfg, harness, twin=tw, on_leaf=on_leaf, seed=cfg.get("seed", 0),
+                          solver_timeout_ms=cfg.get("timeout_ms", 30000), logic="fresh")
+
+
 def _num(s):
     s = str(s).replace("?", "")
     try:
